@@ -588,7 +588,7 @@ func (b *B) numberEdges(id int, c *Ctx) {
 
 // Token: ws* then one byte classified by the JSON token table; offset = its index + 1; end of input (also after
 // whitespace only) is an error. Extra carries the class name.
-func Token(classOf func(b byte) string) *lts.LTS {
+func Token(classOf func(b byte) string, rejectInvalid bool) *lts.LTS {
 	b := NewB("R-token")
 	s := b.S("TOK/START")
 	b.move(s, WS, s)
@@ -601,6 +601,10 @@ func Token(classOf func(b byte) string) *lts.LTS {
 		byClass[cl] = byClass[cl].Or(lts.Of(byte(i)))
 	}
 	for cl, set := range byClass {
+		if rejectInvalid && cl == "InvalidType" {
+			b.on(s, set, lts.Term{Kind: lts.Exit, OK: false, Err: "no valid token"})
+			continue
+		}
 		b.on(s, set, lts.Term{Kind: lts.Exit, OK: true, Delta: 1, Extra: cl})
 	}
 	b.eof(s, false)
